@@ -305,6 +305,9 @@ func domUpd(r *gen.Rng, n int, thorough bool, o *Out) {
 				continue
 			}
 			isUpdate := len(updaters) > 0 && cr.Chance(35)
+			if len(appliers) >= 2 && vopts.Plain && ig.kind == "none" && !conv.degraded() && cr.Chance(25) {
+				judgeCommute(o, c, up, st, tr, cr, pool, ver)
+			}
 			if !isUpdate {
 				mgr := gen.Pick(cr, appliers)
 				force := cr.Chance(35)
@@ -422,6 +425,121 @@ func swapEntryForNull(r *gen.Rng, v interface{}) interface{} {
 		}
 	}
 	return out
+}
+
+// judgeCommute (C02): two managers applying configurations with disjoint field sets reach the same
+// object (up to member order, R1) and the same ownership in either order, from the current state.
+func judgeCommute(o *Out, c *typCtx, up *merge.Updater, st *updState, tr schema.TypeRef, r *gen.Rng, pool []interface{}, ver fieldpath.APIVersion) {
+	defer func() { recover() }()
+	cfgA, err := typed.AsTyped(value.NewValueInterface(gen.Pick(r, pool)), c.sc, tr)
+	if err != nil {
+		return
+	}
+	cfgB0, err := typed.AsTyped(value.NewValueInterface(gen.Pick(r, pool)), c.sc, tr)
+	if err != nil {
+		return
+	}
+	fsA, err := cfgA.ToFieldSet()
+	if err != nil {
+		return
+	}
+	// make B's field set disjoint from A's: drop A's fields from B
+	cfgB := cfgB0.RemoveItems(fsA)
+	if cfgB.AsValue().IsNull() {
+		return
+	}
+	if _, err := typed.AsTyped(cfgB.AsValue(), c.sc, tr); err != nil {
+		return
+	}
+	fsB, err := cfgB.ToFieldSet()
+	if err != nil || fsB.Empty() || !fsA.Intersection(fsB).Empty() || !isPlainValue(cfgB.AsValue()) {
+		return
+	}
+	// disjoint also structurally: no field of one lies at, above or beneath a field of the other
+	overlap := false
+	fsA.Iterate(func(p fieldpath.Path) {
+		if beneathAny(p, fsB) || anyBeneath(p, fsB) {
+			overlap = true
+		}
+	})
+	if overlap {
+		return
+	}
+	// the two managers own nothing yet on this base (reading R13): with previous records of their own,
+	// what each abandons depends on what the other co-owns, and the order legitimately matters
+	desc := "commute c1:" + vx.Value(cfgA.AsValue()) + " c2:" + vx.Value(cfgB.AsValue()) + " on live " + vx.Value(st.live.AsValue()) + " " + encManaged(st.managers)
+	run := func(first, second *typed.TypedValue, m1, m2 string) (string, *typed.TypedValue, fieldpath.ManagedFields) {
+		live := st.live
+		o1, mf, err := up.Apply(live, first, ver, st.managers, m1, false)
+		if err != nil {
+			return "conflict-or-error@1", nil, nil
+		}
+		if o1 != nil {
+			live = o1
+		}
+		o2, mf2, err := up.Apply(live, second, ver, mf, m2, false)
+		if err != nil {
+			return "conflict-or-error@2", nil, nil
+		}
+		if o2 != nil {
+			live = o2
+		}
+		return "ok", live, mf2
+	}
+	k1, l1, m1 := run(cfgA, cfgB, "c1", "c2")
+	k2, l2, m2 := run(cfgB, cfgA, "c2", "c1")
+	o.Tag("upd:commute=" + k1[:2] + "/" + k2[:2])
+	if (k1 == "ok") != (k2 == "ok") {
+		o.Fail("C02", "disjoint-configurations-commute/outcome", k1+" vs "+k2+" : "+desc, "disjoint-configurations-commute/outcome "+desc, "commute")
+		return
+	}
+	if k1 != "ok" {
+		return
+	}
+	if cmp, err := l1.Compare(l2); err != nil || !cmp.IsSame() {
+		d := ""
+		if cmp != nil {
+			d = cmp.String()
+		}
+		o.Fail("C02", "disjoint-configurations-commute/object", d+" : "+desc, "disjoint-configurations-commute/object "+desc, "commute")
+	}
+	if !m1.Equals(m2) {
+		o.Fail("C02", "disjoint-configurations-commute/ownership", encManaged(m1)+" vs "+encManaged(m2)+" : "+desc, "disjoint-configurations-commute/ownership "+desc, "commute")
+	}
+}
+
+// isPlainValue: no explicit null, no empty list or map
+func isPlainValue(v value.Value) bool {
+	switch {
+	case v.IsNull():
+		return false
+	case v.IsList():
+		l := v.AsList()
+		if l.Length() == 0 {
+			return false
+		}
+		for i := 0; i < l.Length(); i++ {
+			if !isPlainValue(l.At(i)) {
+				return false
+			}
+		}
+	case v.IsMap():
+		m := v.AsMap()
+		if m.Length() == 0 {
+			return false
+		}
+		ok := true
+		var keys []string
+		m.Iterate(func(k string, _ value.Value) bool { keys = append(keys, k); return true })
+		for _, k := range keys {
+			x, _ := m.Get(k)
+			if !isPlainValue(x) {
+				ok = false
+			}
+		}
+		return ok
+	}
+	return true
 }
 
 func genUpdateObject(r *gen.Rng, c *typCtx, st *updState, rootRef sgen.Ref, tr schema.TypeRef, pool []interface{}) interface{} {
